@@ -31,6 +31,7 @@ arithmetic on fixed-size arrays with literal indices and saturating casts), `con
 external `astc-decode` crate, and `std` (`read_exact`, `io::copy`, `Vec::try_reserve_exact`).
 -/
 import DdsModel.Proofs.C01
+import DdsModel.Proofs.ReaderRefinesRun
 import DdsModel.Theorems.C05
 import DdsModel.Theorems.C20
 import DdsModel.Drv.C01
@@ -371,6 +372,236 @@ example :
      | some (.ok L) =>
        (C08.run (Dec.new L) [.skipSurface, .skipSurface, .skipSurface, .rewindStart]).2
      | _ => []) = [.ok, .ok, .ok, .panic] := by
+  decide +kernel
+
+/-! ## 5. the composed reader over a REAL stream refines C08's ideal cursor
+
+`Decoder.lean` (C08) models the `Decoder` calls over an ideal reader (position arithmetic only, the
+stream contract of `decode` assumed); `Reader.lean` composes the same calls over an arbitrary `Stream.Env`
+(short, faulty, early `Ok(0)`, either `seek` behaviour, any allocator).  This section links the two:
+whatever the stream does, a call of the composed reader either ends in an I/O error / the memory limit
+— and then the stream or the limit is to blame — or it does exactly what the ideal cursor does.
+Vocabulary (`Proofs/ReaderRefines*.lean`): `Cfg.Agrees`, `Sim`, `idealStep`, `ofDecRes`, `opNeed`,
+`Intact`, `Covered`, `weave`. -/
+
+/-- **The length the iterator reports is the number of bytes `decode` / `decode_rect` / `skip` consume.**
+For every family that agrees with the layout (`Cfg.Agrees`; by `every_format_has_a_decoder` and
+`opened_agrees` every row of the format table and every opened file) and every iterator state of that
+layout: `SurfaceInfo::data_len` of the current surface is `Call.bytes` of the full decode and of every
+rect decode of that surface (the quantity `C06.success_consumes_exactly`, `C06.trace_covers_surface`
+speak about). -/
+theorem reported_len_is_consumed_bytes (k : Cfg) (hk : k.Agrees) (it : SurfIter) (v : C08.IterInv it)
+    (hpx : iterPx it = k.layout.px) (cur : SurfInfo) (hc : it.currentP = some (some cur)) :
+    cur.len = (Call.full cur.w cur.h).bytes k.fam ∧
+    ∀ x y w h, cur.len = (Call.rect cur.w cur.h x y w h).bytes k.fam := by
+  have h := current_len it v hc
+  rw [hpx, ← hk.2] at h
+  exact ⟨h, fun _ _ _ _ => h⟩
+
+/-- **Every file `Decoder::new_with_options` accepts satisfies the agreement predicate**, over any
+stream: the decoder family has admissible unit sizes and the unit sizes of the layout's `PixelInfo`. -/
+theorem opened_agrees (opts : ParseOptions) (ws : List Nat) (hws : ∀ w ∈ ws, w < U32)
+    (o : Opened) (ho : openWords opts ws = .ok o) (e : Env) : (⟨e, o.fam, o.layout⟩ : Cfg).Agrees := by
+  obtain ⟨hwf, hfam, hfpx, hpx, hl, _, _, _⟩ := (parse_layout_trapfree opts ws hws).2 o ho
+  have := (C02.layoutOf_valid _ _ hpx (Header.toLayoutHeader_inRange hwf) o.layout hl).2.1
+  exact ⟨hfam, by show o.fam.px = o.layout.px; rw [hfpx, this]⟩
+
+/-- ... also when opened from a byte string -/
+theorem opened_bytes_agrees (opts : ParseOptions) (bs : List Nat) (hbs : ∀ b ∈ bs, b < 256)
+    (o : Opened) (ho : openBytes opts bs = .ok o) (e : Env) : (⟨e, o.fam, o.layout⟩ : Cfg).Agrees :=
+  opened_agrees opts (leWords bs) (leWords_lt bs.length bs (Nat.le_refl _) hbs) o ho e
+
+/-- **One call of the composed reader refines the ideal cursor.**  For every configuration whose family
+agrees with the layout, every pair of related states (`Sim`: same iterator state, reader position =
+`base` + ideal position, and the invariants of the ideal state), every stream, every memory limit and
+every operation of C01's list — with NO hypothesis on the size of the data section — and for the two
+rewinding calls under C08's invariant (data section `≤ i64::MAX` bytes) on a reader whose clamping
+`seek`, if it clamps, is not positioned beyond the end:
+1. a result other than an I/O error and the memory limit is the ideal decoder's result, and the states
+   are related again (in particular the reader moved by exactly the bytes the ideal cursor moved);
+2. an I/O error is returned only if the first offset the stream cannot deliver (`Env.lim`: end of
+   file, hard error, early `Ok(0)`, refused seek) lies before the end of the bytes the call touches, or
+   the call has to skip more than `i64::MAX` bytes;
+3. the memory limit is returned only if the limit is below the need of the call, or the allocator
+   refused, or the surface has more than `isize::MAX` bytes — and then the ideal decoder returns the
+   same error and the states stay related. -/
+theorem reader_refines_cursor (k : Cfg) (hk : k.Agrees) (base : Nat) (s : RS) (d : Dec)
+    (h : Sim k base s d) (op : Reader.Op)
+    (hback : op.inC01 = false → C08.DecInv d ∧ (k.env.clampSeek = true → s.pos ≤ k.env.len)) :
+    ((step k s op).2 ≠ .io → (step k s op).2 ≠ .memoryLimitExceeded →
+      (step k s op).2 = ofDecRes (idealStep d op).2 ∧ Sim k base (step k s op).1 (idealStep d op).1) ∧
+    ((step k s op).2 = .io → k.env.len < U64 →
+      (k.env.lim : Int) < base + max d.pos (idealStep d op).1.pos ∨
+      (I64MAX : Int) < (idealStep d op).1.pos - d.pos) ∧
+    ((step k s op).2 = .memoryLimitExceeded →
+      s.limit < opNeed k s op ∨ ¬ C06.AllocatorGrants k.env ∨
+      ((idealStep d op).2 = .memoryLimitExceeded ∧ Sim k base (step k s op).1 (idealStep d op).1 ∧
+        I64MAX < C08.total d.iter)) := by
+  show Clauses k base s d (opNeed k s op) (step k s op) (idealStep d op)
+  cases op with
+  | read w hh c => exact (step_sim hk h _ rfl (by intro l hl; cases hl)).clauses
+  | rect ox oy w hh c => exact (step_sim hk h _ rfl (by intro l hl; cases hl)).clauses
+  | skipSurface => exact (step_sim hk h _ rfl (by intro l hl; cases hl)).clauses
+  | skipMipmaps => exact (step_sim hk h _ rfl (by intro l hl; cases hl)).clauses
+  | cube w hh c => exact (step_sim hk h _ rfl (by intro l hl; cases hl)).clauses
+  | setLimit l =>
+    exact ⟨fun _ _ => ⟨rfl, ⟨h.iter, h.pos, h.layout, h.px, h.inv, h.cpos, h.u64⟩⟩,
+      (fun hio => by simp [step] at hio), (fun hm => by simp [step] at hm)⟩
+  | rewindPrev => exact (rewindPrev_sim h (hback rfl).1 (hback rfl).2).clauses h
+  | rewindStart => exact (rewindStart_sim h (hback rfl).1 (hback rfl).2).clauses h
+
+/-- a reader at the first data byte and a fresh ideal decoder are related -/
+theorem fresh_states_related (k : Cfg) (base limit : Nat) (hi : C08.IterInv (SurfIter.new k.layout))
+    (hu : base + C08.total (SurfIter.new k.layout) < U64) :
+    Sim k base ⟨SurfIter.new k.layout, base, limit⟩ (Dec.new k.layout) := Sim.new limit hi hu
+
+/-- **Whole call sequences on an intact stream.**  If the stream delivers the whole data section
+(`Intact`: `u64` offsets, no end / error / early `Ok(0)` before `base + data length`, allocator willing)
+and the memory limit in force covers the need of every call (`Covered`), then for every operation list
+(no length bound; all eight operations, the limit may change inside the list): the results of
+`Reader.runOps` are the results of C08's `run` on the ideal decoder (with `ok` for each change of the
+limit), the final states are related, C08's invariant holds for the ideal state, and no call returned
+an I/O error, the memory limit or a panic. -/
+theorem runOps_refines_run (k : Cfg) (hk : k.Agrees) (base : Nat) (hin : Intact k base) (s : RS) (d : Dec)
+    (h : Sim k base s d) (hinv : C08.DecInv d) (ops : List Reader.Op) (hcov : Covered k s ops) :
+    (runOps k s ops).2 = weave ops (C08.run d (ops.filterMap toDecOp)).2 ∧
+    Sim k base (runOps k s ops).1 (C08.run d (ops.filterMap toDecOp)).1 ∧
+    C08.DecInv (C08.run d (ops.filterMap toDecOp)).1 ∧
+    ∀ r ∈ (runOps k s ops).2, r ≠ .io ∧ r ≠ .memoryLimitExceeded ∧ r ≠ .panic :=
+  runOps_sim hk hin ops s d h hinv hcov
+
+/-- **C08's theorems transfer to the stream model: the reader position is the cursor offset.**  Under
+the hypotheses of `runOps_refines_run`, after EVERY prefix of the operation list the absolute reader
+position of the composed reader is `base` + the offset of the surface the decoder reports as next in
+C02's flattened surface list (`C08.history` / `C08.DecInv.pos`, `C08.tex_current_is_flat`,
+`C08.vol_current_is_flat`), and `base` + the data length once every surface has been consumed
+(`C08.end_position`); the iterator walks the flattened list of the layout. -/
+theorem reader_position_is_cursor_offset (k : Cfg) (hk : k.Agrees) (base : Nat) (hin : Intact k base)
+    (s : RS) (d : Dec) (h : Sim k base s d) (hinv : C08.DecInv d) (ops : List Reader.Op)
+    (hcov : Covered k s ops) (n : Nat) :
+    (runOps k s (ops.take n)).1.iter = (C08.run d ((ops.take n).filterMap toDecOp)).1.iter ∧
+    (runOps k s (ops.take n)).1.pos = base + C08.elapsed (runOps k s (ops.take n)).1.iter ∧
+    C08.flat (runOps k s (ops.take n)).1.iter = C08.flat (SurfIter.new k.layout) ∧
+    (C08.abs (runOps k s (ops.take n)).1.iter < C08.count (runOps k s (ops.take n)).1.iter →
+      ∃ surf, (C08.flat (runOps k s (ops.take n)).1.iter)[C08.abs (runOps k s (ops.take n)).1.iter]? = some surf ∧
+        (runOps k s (ops.take n)).1.pos = base + surf.offset) ∧
+    (C08.abs (runOps k s (ops.take n)).1.iter = C08.count (runOps k s (ops.take n)).1.iter →
+      (runOps k s (ops.take n)).1.pos = base + C08.total (SurfIter.new k.layout)) := by
+  obtain ⟨_, hs, hv, _⟩ := runOps_sim hk hin (ops.take n) s d h hinv (Covered.take ops s n hcov)
+  generalize runOps k s (ops.take n) = rn at hs ⊢
+  generalize C08.run d ((ops.take n).filterMap toDecOp) = dn at hs hv ⊢
+  have hpos : rn.1.pos = base + C08.elapsed rn.1.iter := by
+    have h1 := hs.pos
+    have h2 := hs.cpos
+    rw [hs.iter]; omega
+  have hflat : C08.flat rn.1.iter = C08.flat (SurfIter.new k.layout) := by
+    rw [hs.iter, ← hs.layout]; exact hv.flat_eq.symm
+  refine ⟨hs.iter, hpos, hflat, ?_, ?_⟩
+  · intro hlt
+    obtain ⟨surf, h1, h2⟩ := current_is_flat rn.1.iter (by rw [hs.iter]; exact hs.inv) hlt
+    exact ⟨surf, h1, by rw [h2]; exact hpos⟩
+  · intro hend
+    have he := C08.end_position dn.1 hv (by rw [← hs.iter]; exact hend)
+    have h1 := hs.pos
+    have ht : C08.total (SurfIter.new k.layout) = C08.total dn.1.iter := by
+      rw [← hs.layout]; exact hv.total_eq
+    rw [ht]; omega
+
+/-- **... for every file `Decoder::new_with_options` accepts** whose data section has at most `i64::MAX`
+bytes, read from a reader positioned at the first data byte `base` of a stream that delivers the data
+section: every list of `Decoder` calls gives the results of C08's ideal decoder, and after every prefix
+the reader position is `base` + the offset, in C02's specification list `C02.specFlatten` of the
+layout, of the surface the decoder reports as next (`base + C02.specTotal` at the end). -/
+theorem opened_reader_position_is_layout_offset (opts : ParseOptions) (ws : List Nat)
+    (hws : ∀ w ∈ ws, w < U32) (o : Opened) (ho : openWords opts ws = .ok o)
+    (hsmall : C02.specTotal o.layout ≤ I64MAX) (e : Env) (base limit : Nat) (hlen : e.len < U64)
+    (hfits : base + C02.specTotal o.layout ≤ e.lim) (hgrant : C06.AllocatorGrants e)
+    (ops : List Reader.Op)
+    (hcov : Covered ⟨e, o.fam, o.layout⟩ ⟨SurfIter.new o.layout, base, limit⟩ ops) (n : Nat) :
+    (runOps ⟨e, o.fam, o.layout⟩ ⟨SurfIter.new o.layout, base, limit⟩ ops).2 =
+      weave ops (C08.run (Dec.new o.layout) (ops.filterMap toDecOp)).2 ∧
+    (∀ r ∈ (runOps ⟨e, o.fam, o.layout⟩ ⟨SurfIter.new o.layout, base, limit⟩ ops).2,
+      r ≠ .io ∧ r ≠ .memoryLimitExceeded ∧ r ≠ .panic) ∧
+    (C08.abs (runOps ⟨e, o.fam, o.layout⟩ ⟨SurfIter.new o.layout, base, limit⟩ (ops.take n)).1.iter <
+        C08.count (SurfIter.new o.layout) →
+      ∃ surf, (C02.specFlatten o.layout)[C08.abs
+          (runOps ⟨e, o.fam, o.layout⟩ ⟨SurfIter.new o.layout, base, limit⟩ (ops.take n)).1.iter]? = some surf ∧
+        (runOps ⟨e, o.fam, o.layout⟩ ⟨SurfIter.new o.layout, base, limit⟩ (ops.take n)).1.pos =
+          base + surf.offset) ∧
+    (C08.abs (runOps ⟨e, o.fam, o.layout⟩ ⟨SurfIter.new o.layout, base, limit⟩ (ops.take n)).1.iter =
+        C08.count (SurfIter.new o.layout) →
+      (runOps ⟨e, o.fam, o.layout⟩ ⟨SurfIter.new o.layout, base, limit⟩ (ops.take n)).1.pos =
+        base + C02.specTotal o.layout) := by
+  obtain ⟨hwf, _, _, hpx, hl, _, _, hiter⟩ := (parse_layout_trapfree opts ws hws).2 o ho
+  have hir := Header.toLayoutHeader_inRange hwf
+  have harr := (C02.layoutOf_valid _ _ hpx hir o.layout hl).2.2.2.2.2
+  have hdinv := C08.new_inv _ _ hpx hir (wf_mips hwf) o.layout hl hsmall
+  have htot := total_new o.layout harr
+  have hfl := flat_new o.layout harr
+  have hk := opened_agrees opts ws hws o ho e
+  have hll := lim_le_len e
+  have hin : Intact ⟨e, o.fam, o.layout⟩ base := ⟨hlen, by show base + C08.total _ ≤ e.lim; rw [htot]; exact hfits, hgrant⟩
+  have hsim : Sim ⟨e, o.fam, o.layout⟩ base ⟨SurfIter.new o.layout, base, limit⟩ (Dec.new o.layout) :=
+    Sim.new limit hiter (by show base + C08.total (SurfIter.new o.layout) < U64; rw [htot]; omega)
+  obtain ⟨r1, _, _, r4⟩ := runOps_refines_run _ hk base hin _ _ hsim hdinv ops hcov
+  obtain ⟨_, _, p3, p4, p5⟩ := reader_position_is_cursor_offset _ hk base hin _ _ hsim hdinv ops hcov n
+  obtain ⟨_, ps, pv, _⟩ := runOps_sim hk hin (ops.take n) _ _ hsim hdinv (Covered.take ops _ n hcov)
+  have hcnt : C08.count (SurfIter.new o.layout) =
+      C08.count (runOps ⟨e, o.fam, o.layout⟩ ⟨SurfIter.new o.layout, base, limit⟩ (ops.take n)).1.iter := by
+    rw [ps.iter]
+    have := pv.count_eq
+    rw [ps.layout] at this
+    exact this
+  refine ⟨r1, r4, ?_, ?_⟩
+  · intro hlt
+    rw [hcnt] at hlt
+    obtain ⟨surf, h1, h2⟩ := p4 hlt
+    rw [p3] at h1
+    exact ⟨surf, by rw [← hfl]; exact h1, h2⟩
+  · intro hend
+    rw [hcnt] at hend
+    have := p5 hend
+    rw [← htot]; exact this
+
+/-- a 16×16 BC1 cube map with 2 mip levels (6 · (128 + 32) = 960 data bytes behind a 148-byte header) -/
+def exHeader2 : Header := .dx10 { Dx10Header.new .cubeMap 16 16 0 71 with mipmapCount := 2 }
+def exWords2 : List Nat := Header.write pixelInfoOf exHeader2
+
+/-- non-vacuity of `reader_refines_cursor` / `runOps_refines_run` / `reader_position_is_cursor_offset` /
+`opened_reader_position_is_layout_offset`: `exWords2` is accepted; over a stream of exactly
+148 + 960 bytes (default allocator: grants) every hypothesis holds — agreement, data `≤ i64::MAX`, `u64`
+offsets, the data section delivered (`Intact`), every need covered (`Covered`, with the limit changed
+twice inside the list) — for a list with all eight operations; all calls succeed and the reader ends
+at the end of the file -/
+example :
+    (∀ w ∈ exWords2, w < U32) ∧
+    (match openWords {} exWords2 with
+     | .ok o =>
+       let k : Cfg := ⟨{ len := 148 + 960 }, o.fam, o.layout⟩
+       let s : RS := ⟨SurfIter.new o.layout, 148, 1000⟩
+       let ops : List Reader.Op := [.read 16 16 (3, 0), .skipMipmaps, .setLimit 64, .rect 4 4 8 8 (0, 2),
+         .rewindPrev, .skipSurface, .skipSurface, .rewindStart, .setLimit 128, .cube 64 48 (3, 0)]
+       decide k.Agrees && decide (C02.specTotal o.layout ≤ I64MAX) && decide (k.env.len < U64) &&
+       decide (148 + C02.specTotal o.layout ≤ k.env.lim) &&
+       decide (148 + C08.total (SurfIter.new k.layout) ≤ k.env.lim) &&
+       decide (Covered k s ops) &&
+       decide ((runOps k s ops).2 = [.ok, .ok, .ok, .ok, .ok, .ok, .ok, .ok, .ok, .ok]) &&
+       decide ((runOps k s ops).1.pos = 148 + 960)
+     | .error _ => false) = true := by
+  decide +kernel
+
+/-- the default allocator grants -/
+example : C06.AllocatorGrants { len := 148 + 960 } := fun _ => rfl
+
+/-- the clauses 2 and 3 of `reader_refines_cursor` are not vacuous: the same file over a stream that ends
+inside the first surface gives an I/O error, and a limit of 127 bytes (need 128) the memory limit -/
+example :
+    (match openWords {} exWords2 with
+     | .ok o =>
+       ((step ⟨{ len := 148 + 100 }, o.fam, o.layout⟩ ⟨SurfIter.new o.layout, 148, 1000⟩ (.read 16 16 (3, 0))).2,
+        (step ⟨{ len := 148 + 960 }, o.fam, o.layout⟩ ⟨SurfIter.new o.layout, 148, 127⟩ (.read 16 16 (3, 0))).2,
+        opNeed ⟨{ len := 148 + 960 }, o.fam, o.layout⟩ ⟨SurfIter.new o.layout, 148, 127⟩ (.read 16 16 (3, 0)))
+     | .error _ => (.ok, .ok, 0)) = (.io, .memoryLimitExceeded, 128) := by
   decide +kernel
 
 end Dds.C01
